@@ -1,6 +1,7 @@
 //! Correspondence/validation harness: runs the real grmtools code in-process on generated cases and
 //! writes request lines for the Lean driver plus the implementation's answers.
 //!   vharness <PROP> --seed N --tier quick|thorough --out DIR [--replay FILE]
+mod gen;
 mod out;
 mod props;
 mod rng;
@@ -41,6 +42,7 @@ fn main() {
     std::panic::set_hook(Box::new(|_| {}));
     match prop.as_str() {
         "C19" => props::c19::run(&a),
+        "C17" => props::c17::run(&a),
         _ => { eprintln!("unknown property {}", prop); std::process::exit(2); }
     }
 }
